@@ -2,6 +2,7 @@ package rules
 
 import (
 	"go/ast"
+	"go/constant"
 	"go/token"
 	"go/types"
 	"sort"
@@ -218,6 +219,9 @@ func builderAtoms(gs []an.Guard) []string {
 		case strings.Contains(p, " != nil") && (strings.Contains(p, "BuildQueryMeta") || strings.Contains(p, "CollectPodMetricLast")):
 			atoms = append(atoms, "metric-error="+t)
 		case isRangeOk(g.Cond), strings.Contains(p, "builtin.len("):
+		case isFlagMerge(g.Cond):
+			// the 'go on' flag of an extracted iteration body: a merge of boolean constants, decided by the
+			// conditions in front of it (which are atoms of their own)
 		default:
 			atoms = append(atoms, "other["+p+"]="+t)
 		}
@@ -618,6 +622,21 @@ func isAggregateRelease(v ssa.Value, depth int) bool {
 				return false
 			}
 		default:
+			return false
+		}
+	}
+	return true
+}
+
+// isFlagMerge: v is a merge of boolean constants only (possibly through local cells).
+func isFlagMerge(v ssa.Value) bool {
+	srcs := cellSources(v)
+	if len(srcs) < 2 {
+		return false
+	}
+	for _, s := range srcs {
+		c, ok := s.(*ssa.Const)
+		if !ok || c.Value == nil || c.Value.Kind() != constant.Bool {
 			return false
 		}
 	}
